@@ -1,10 +1,11 @@
 --------------------------- MODULE MC_SearchAlgo ---------------------------
 EXTENDS SearchAlgo
 CONSTANTS MaxVal, MaxLen, MaxQ
-IncInt(n)  == {s \in [1..n -> 0..MaxVal] : \A i \in 1..(n - 1) : s[i] < s[i + 1]}
+Lo == 0 - 2
+IncInt(n)  == {s \in [1..n -> Lo..(MaxVal + Lo)] : \A i \in 1..(n - 1) : s[i] < s[i + 1]}
 MCArrays   == UNION {{IntSeq(s) : s \in IncInt(n)} : n \in 1..MaxLen}
 \* half-integer lattice -1 .. MaxVal+1, as k/2
-HalfVals   == (-2)..(2 * MaxVal + 2)
+HalfVals   == (2 * Lo - 2)..(2 * (MaxVal + Lo) + 2)
 SortedQ(n) == {s \in [1..n -> HalfVals] : \A i \in 1..(n - 1) : s[i] <= s[i + 1]}
 MCQueries  == UNION {{[i \in 1..n |-> RNorm(s[i], 2)] : s \in SortedQ(n)} : n \in 1..MaxQ}
 =============================================================================
